@@ -12,7 +12,7 @@ COMMON = os.path.join(VERIF, 'harness', 'common')
 GUARD = 'LIBHTP_VERIF'
 STD_INC = ['-I' + REPO, '-I' + HTP, '-I' + COMMON, '-I' + os.path.join(VERIF, 'harness')]
 STD_DEF = ['-D_GNU_SOURCE', '-D__NO_CTYPE', '-D' + GUARD, '-DHAVE_CONFIG_H']
-MEM_BUDGET_GB = int(os.environ.get('VERIF_MEM_GB', '44'))
+MEM_BUDGET_GB = int(os.environ.get('VERIF_MEM_GB', '52'))
 MAX_JOBS = int(os.environ.get('VERIF_JOBS', '16'))
 
 _scratch = None
